@@ -716,7 +716,7 @@ func c15Consts(a []string) string {
 	kv := map[string]uint64{
 		"rtmp_chan": uint64(rt), "rtmp_wto": uint64(rto), "rtsp_chan": uint64(rs),
 		"flv_chan": 1024, "flv_wto": uint64(httpflv.SubSessionWriteTimeoutMs),
-		"ts_chan": uint64(httpts.SubSessionWriteChanSize), "ts_wto": uint64(httpts.SubSessionWriteTimeoutMs),
+		"ts_chan": uint64(c15TsChanDefault), "ts_wto": uint64(httpts.SubSessionWriteTimeoutMs),
 		"sweep_sec": uint64(base.LogicCheckSessionAliveIntervalSec), "full_behavior": uint64(beh),
 	}
 	// httpflv.SubSessionWriteChanSize is zeroed by the C11 ops of this process; report the source default
@@ -736,6 +736,7 @@ func c15Consts(a []string) string {
 // captured before any init() of this package changes it (package-level
 // variable initialisation runs before init functions)
 var c15FlvChanDefault = httpflv.SubSessionWriteChanSize
+var c15TsChanDefault = httpts.SubSessionWriteChanSize
 
 func init() {
 	register("c15.run", c15Run)
